@@ -840,7 +840,8 @@ func (ts tasks) numToDo() (todo, notes int) {
 func (s *Server) CancelRequest(id string) {
 	s.mu.Lock()
 	defer s.mu.Unlock()
-	if s.cancelLocked(id) {
+	if cancel, ok := s.used[id]; ok {
+		cancel() // the reservation is released when the reply is delivered
 		s.log("Cancelled request %s by client order", id)
 	}
 }
